@@ -16,7 +16,7 @@ import tempfile
 
 from vlib import qN, qZ, qbytes, qlist, qstr, qbool, canon_exc, coq_show
 
-GEN_DEPS = ("Consts.v", "gen_consts")
+GEN_DEPS = ("Consts.v", "gen_consts", "Pad.v", "gen_pad")
 MODEL_TARGETS = ["Model/History.vo"]
 IMPORTS = "From Bec2 Require Import Gen.Consts Model.History."
 
